@@ -94,13 +94,15 @@ func (fc *fileCase) boundaries() []int64 {
 
 // genHandFile hand-assembles a well-formed file DAG in mutable form (see genHandFileDAG).
 func genHandFile(t *rapid.T, allowOldStyle bool) (root *mnode, data []byte, writer, desc string) {
-	return genHandFileOpt(t, handOpts{OldStyle: allowOldStyle})
+	return genHandFileOpt(t, handOpts{OldStyle: allowOldStyle, SpareBlockSize: true})
 }
 
 type handOpts struct {
 	OldStyle bool // allow interior nodes without BlockSizes / FileSize
 	NoEmpty  bool // no zero-length chunks (checks about which blocks a byte range needs)
 	MinChunk int
+	// SpareBlockSize: BlockSizes may hold one entry more than there are links (FileSize stays the sum of the real ones)
+	SpareBlockSize bool
 }
 
 func genHandFileOpt(t *rapid.T, o handOpts) (root *mnode, data []byte, writer, desc string) {
@@ -125,6 +127,8 @@ func genHandFileOpt(t *rapid.T, o handOpts) (root *mnode, data []byte, writer, d
 	// not request order or laziness)
 	noBlockSizes := allowOldStyle && pbLeaves && rapid.IntRange(0, 2).Draw(t, "noBlockSizes") == 0
 	noFileSize := allowOldStyle && rapid.IntRange(0, 2).Draw(t, "noFileSize") == 0 // FileSize is optional: the length then comes from the links
+	tsizeStyle := rapid.SampledFrom([]int{0, 0, 1, 2, 3}).Draw(t, "tsizeStyle")
+	spareBlockSize := o.SpareBlockSize && rapid.IntRange(0, 3).Draw(t, "spareBlockSize") == 0
 	var chunks [][]byte
 	pattern := ""
 	for i := 0; i < n; i++ {
@@ -148,8 +152,20 @@ func genHandFileOpt(t *rapid.T, o handOpts) (root *mnode, data []byte, writer, d
 		m := &mnode{HasData: true, UFS: &ufsFields{Type: typeOf(role)}}
 		tot := uint64(0)
 		for i, k := range kids {
-			// Tsize only has to be right for raw leaves (the reader trusts it); cumulative sizes are not the subject here
-			m.Links = append(m.Links, mlink{Tsize: i64p(int64(sizes[i])), Child: k})
+			// Tsize only has to be right for raw leaves (the reader trusts it there); for dag-pb children it is a hint that
+			// writers fill in differently: the content size, the cumulative size, the size of the linked block alone, nothing
+			ts := i64p(int64(sizes[i]))
+			if !k.IsRaw {
+				switch tsizeStyle {
+				case 1:
+					ts = i64p(int64(sizes[i]) + 50 + int64(len(k.Links))*45)
+				case 2:
+					ts = i64p(1 + int64(len(k.Links)))
+				case 3:
+					ts = nil
+				}
+			}
+			m.Links = append(m.Links, mlink{Tsize: ts, Child: k})
 			if !noBlockSizes {
 				m.UFS.BlockSizes = append(m.UFS.BlockSizes, sizes[i])
 			}
@@ -157,6 +173,10 @@ func genHandFileOpt(t *rapid.T, o handOpts) (root *mnode, data []byte, writer, d
 		}
 		if !noFileSize {
 			m.UFS.FileSize = u64p(tot)
+		}
+		if spareBlockSize && !noBlockSizes {
+			// one entry more than there are links (a spare trailing size some writer left behind)
+			m.UFS.BlockSizes = append(m.UFS.BlockSizes, 0)
 		}
 		return m, tot
 	}
@@ -175,8 +195,8 @@ func genHandFileOpt(t *rapid.T, o handOpts) (root *mnode, data []byte, writer, d
 		kids, sizes = []*mnode{a, b}, []uint64{as, bs}
 	}
 	root, _ = interior(kids, sizes, 1)
-	writer = fmt.Sprintf("hand-%s-pb=%v-l%d-bs=%v-fs=%v-raw=%d", pattern, pbLeaves, levels, !noBlockSizes, !noFileSize, rawTyped)
-	desc = fmt.Sprintf("hand-made file chunks=%s (0 = empty) pbLeaves=%v levels=%d blocksizes=%v filesize=%v rawTyped=%d (0 none, 1 root, 2 interior, 3 leaves, 4 all) len=%d", pattern, pbLeaves, levels, !noBlockSizes, !noFileSize, rawTyped, len(data))
+	writer = fmt.Sprintf("hand-%s-pb=%v-l%d-bs=%v-fs=%v-raw=%d-ts=%d-spare=%v", pattern, pbLeaves, levels, !noBlockSizes, !noFileSize, rawTyped, tsizeStyle, spareBlockSize)
+	desc = fmt.Sprintf("hand-made file chunks=%s (0 = empty) pbLeaves=%v levels=%d blocksizes=%v filesize=%v rawTyped=%d (0 none, 1 root, 2 interior, 3 leaves, 4 all) tsizeStyle=%d (0 content, 1 cumulative, 2 block-local, 3 absent) spareBlockSize=%v len=%d", pattern, pbLeaves, levels, !noBlockSizes, !noFileSize, rawTyped, tsizeStyle, spareBlockSize, len(data))
 	return
 }
 
@@ -185,7 +205,7 @@ func genHandFileOpt(t *rapid.T, o handOpts) (root *mnode, data []byte, writer, d
 // blocks or dag-pb File nodes; with three levels the chunks are grouped under intermediate nodes; old-style variants omit
 // BlockSizes (and FileSize).
 func genHandFileDAG(t *rapid.T, allowOldStyle bool) *fileCase {
-	return genHandFileDAGOpt(t, handOpts{OldStyle: allowOldStyle})
+	return genHandFileDAGOpt(t, handOpts{OldStyle: allowOldStyle, SpareBlockSize: true})
 }
 
 func genHandFileDAGOpt(t *rapid.T, o handOpts) *fileCase {
